@@ -40,6 +40,10 @@ var lgTable = []lgEntry{
 	{Rule: "L1", Func: "tensor.ToMat64", Site: "copy(%data, $t.Float64s())", Goal: "!$t.IsMaterializable()", Props: []string{"C04", "C14"}, Why: "raw export of a view/lazy transpose emits storage order, not logical order"},
 	{Rule: "L1", Func: "tensor.ToMat64", Site: "convToFloat64s($t)", Goal: "!$t.IsMaterializable()", Props: []string{"C04", "C14"}, Why: "raw export of a view/lazy transpose emits storage order, not logical order"},
 	{Rule: "L4", Func: "tensor.ToMat64", Site: "mat.NewDense(", Decides: []string{"$t.DataOrder().IsColMajor()"}, Props: []string{"C16"}, Why: "mat.Dense is row-major: the exporter must consult the tensor's data order"},
+	{Rule: "L1", Func: "tensor.copyDenseIter", Site: "copyDense($dst, $src)", Goal: "((!$dst.RequiresIterator() && !$src.RequiresIterator()) && $dst.DataOrder().HasSameOrder($src.DataOrder()))", Props: []string{"C04", "C16"}, Why: "the raw memcpy inside the iterator copy is only the logical copy when neither side needs an iterator and both have the same data order"},
+	{Rule: "L1", Func: "tensor.handleFuncOpts", Site: "return ", NotAfter: "= errors.", Goal: "(!$ret2 || !(($expShape.TotalSize() != $ret0.len()) && !$expShape.IsScalar()))", Props: []string{"C04", "C07"}, Why: "a reuse/incr destination is accepted only if its storage length equals the result size (a strided view, whose storage is longer than its element count, is refused)"},
+	{Rule: "L1", Func: "tensor.handleFuncOptsF32", Site: "return ", NotAfter: "= errors.", Goal: "(!$ret2 || !(($expShape.TotalSize() != $ret0.len()) && !$expShape.IsScalar()))", Props: []string{"C04", "C07", "C20"}, Why: "a reuse/incr destination is accepted only if its storage length equals the result size"},
+	{Rule: "L1", Func: "tensor.handleFuncOptsF64", Site: "return ", NotAfter: "= errors.", Goal: "(!$ret2 || !(($expShape.TotalSize() != $ret0.len()) && !$expShape.IsScalar()))", Props: []string{"C04", "C07", "C20"}, Why: "a reuse/incr destination is accepted only if its storage length equals the result size"},
 	// ---- reductions (C08, C16) --------------------------------------------------------------------
 	{Rule: "L1", Func: "tensor.(StdEng).Sum", Site: "$r.reduce(", Goal: "!(%ok && %v.IsMaterializable())", OrStep: ".Materialize()", Props: []string{"C08"}, Why: "views are materialised before the raw reducers run"},
 	{Rule: "L1", Func: "tensor.(StdEng).Min", Site: "$r.reduce(", Goal: "!(%ok && %v.IsMaterializable())", OrStep: ".Materialize()", Props: []string{"C08"}, Why: "views are materialised before the raw reducers run"},
